@@ -5,6 +5,7 @@ import (
 	//"encoding/hex"
 	"io"
 	"log"
+	"net"
 	"net/http"
 	"os"
 	"regexp"
@@ -102,7 +103,12 @@ func (h *HTTP) request(ctx *gin.Context) {
 	if h.Config.BehindRedir {
 		ExternalIP = ctx.Request.Header.Get("X-Forwarded-For")
 	} else {
-		ExternalIP = strings.Split(ctx.Request.RemoteAddr, ":")[0]
+		// RemoteAddr is "ip:port" or "[ipv6]:port"
+		if host, _, err := net.SplitHostPort(ctx.Request.RemoteAddr); err == nil {
+			ExternalIP = host
+		} else {
+			ExternalIP = ctx.Request.RemoteAddr
+		}
 	}
 
 	/*
